@@ -189,6 +189,9 @@ func (p *Prog) FuncName(f *ssa.Function) string {
 	if f == nil {
 		return "<nil>"
 	}
+	if p == nil {
+		return f.String()
+	}
 	if s, ok := p.declCache[f]; ok {
 		return s
 	}
